@@ -372,9 +372,12 @@ class Client:
 
     def check_key(self, key: Key, key_prefix: bytes) -> bytes:
         """Checks key and add key_prefix."""
-        return check_key_helper(
+        key = check_key_helper(
             key, allow_unicode_keys=self.allow_unicode_keys, key_prefix=key_prefix
         )
+        if not key:
+            raise MemcacheIllegalInputError("Key is empty")
+        return key
 
     def _connect(self) -> None:
         self.close()
@@ -1439,9 +1442,12 @@ class PooledClient:
 
     def check_key(self, key: Key) -> bytes:
         """Checks key and add key_prefix."""
-        return check_key_helper(
+        key = check_key_helper(
             key, allow_unicode_keys=self.allow_unicode_keys, key_prefix=self.key_prefix
         )
+        if not key:
+            raise MemcacheIllegalInputError("Key is empty")
+        return key
 
     def _create_client(self) -> Client:
         return self.client_class(
